@@ -289,7 +289,7 @@ fn write_entry(
     if let Some(texture_data) = &entry.texture_data {
         let texture_metadata = entry.texture_metadata.as_ref().expect("always Some if texture_data is");
         texture_offset = w.pos()? - entry_pos;
-        write_texture(w, texture_data, texture_metadata)?;
+        write_texture(w, emitter, texture_data, texture_metadata)?;
     };
 
     let end_pos = w.pos()?;
@@ -383,15 +383,15 @@ fn read_texture(f: &mut BinReader, emitter: &impl Emitter, with_images: bool) ->
 }
 
 #[inline(never)]
-fn write_texture(f: &mut BinWriter, data: &TextureData, metadata: &TextureMetadata) -> WriteResult {
+fn write_texture(f: &mut BinWriter, emitter: &dyn Emitter, data: &TextureData, metadata: &TextureMetadata) -> WriteResult {
     f.write_all(b"THTX")?;
 
     f.write_u16(0)?;
-    f.write_u16(metadata.format as _)?;
-    f.write_u16(metadata.width as _)?;
-    f.write_u16(metadata.height as _)?;
+    f.write_u16(fit_header_field(emitter, "image format", metadata.format)?)?;
+    f.write_u16(fit_header_field(emitter, "image width", metadata.width)?)?;
+    f.write_u16(fit_header_field(emitter, "image height", metadata.height)?)?;
 
-    f.write_u32(data.data.len() as _)?;
+    f.write_u32(fit_header_field(emitter, "image data size", data.data.len())?)?;
     f.write_all(&data.data)?;
     Ok(())
 }
